@@ -1107,6 +1107,11 @@ func classifySrv(s *SrvH) core.Class {
 				label(hl)
 			}
 		}
+		if op.K == "add" && op.L != nil && op.L.Kind != "ext" {
+			for _, sl := range scaleLabels(CaseA{SMB: op.L.Kind == "smb", HTTP: op.L.HTTP, Pipe: op.L.Pipe}) {
+				label(sl)
+			}
+		}
 	}
 	keys := func(m map[string]bool) string {
 		var ks []string
